@@ -36,6 +36,12 @@ struct Sess {
     eligible: bool,
     seen: HashMap<u16, HashSet<u8>>,
     orig: HashMap<u16, (u8, Vec<u8>)>, // id -> (total, original buffer)
+    // every buffer handed to make_fragments in this session (a delivered frame must be one of them)
+    made: HashSet<Vec<u8>>,
+    // integrity oracle on (off in the sessions that build frames by hand)
+    integrity: bool,
+    // ids whose slot was first taken by an inconsistent stray: nothing is demanded of the genuine frame with that id
+    tainted: HashSet<u16>,
 }
 
 fn new_sess(out: &mut Out, timeout: u64) -> Sess {
@@ -49,6 +55,9 @@ fn new_sess(out: &mut Out, timeout: u64) -> Sess {
         eligible: true,
         seen: HashMap::new(),
         orig: HashMap::new(),
+        made: HashSet::new(),
+        integrity: true,
+        tainted: HashSet::new(),
     }
 }
 
@@ -111,6 +120,10 @@ fn op_make(out: &mut Out, s: &mut Sess, mtu: usize, buf: &[u8]) -> Option<Vec<Ve
                 }
                 if !v.is_empty() {
                     s.orig.insert(used_id, (v.len() as u8, buf.to_vec()));
+                    s.made.insert(buf.to_vec());
+                    // a new frame under a reused id: the oracle's bookkeeping starts over (the previous frame with this
+                    // id has been completed or has expired by then in every session that reuses ids)
+                    s.seen.remove(&used_id);
                 }
                 Some(v)
             }
@@ -130,6 +143,16 @@ fn bucket(n: usize) -> &'static str {
 
 /// feed one datagram; `wellformed` = it is a fragment produced by op_make in this session
 fn op_reasm(out: &mut Out, s: &mut Sess, d: &[u8], wellformed: bool) {
+    op_reasm_k(out, s, d, if wellformed { GENUINE } else { MALFORMED })
+}
+
+const MALFORMED: u8 = 0;
+const GENUINE: u8 = 1;
+/// a fragment header that is valid by itself but carries another `total` than the genuine frame with the same id
+const STRAY: u8 = 2;
+
+fn op_reasm_k(out: &mut Out, s: &mut Sess, d: &[u8], kind: u8) {
+    let wellformed = kind == GENUINE;
     let b = Bytes::copy_from_slice(d);
     let f = &mut s.f;
     let r = no_panic(|| f.reassemble(b));
@@ -155,7 +178,28 @@ fn op_reasm(out: &mut Out, s: &mut Sess, d: &[u8], wellformed: bool) {
             got = Some(tb.buf.to_vec());
         }
     }
+    // integrity, in every session: whatever comes out is a frame that was put in (or a single-fragment datagram as is)
+    if s.integrity {
+        if let Some(g) = &got {
+            let single = d.len() >= 4 && d[2] == 1 && d[3] == 0 && g[..] == d[4..];
+            if !single && !s.made.contains(g) {
+                out.oracle_fail("wrong-frame-delivered", &format!("a frame of {} bytes was delivered that is none of the frames put in: {}", g.len(), hex(&g[..g.len().min(24)])));
+            }
+        }
+    }
     if !s.eligible {
+        return;
+    }
+    if kind == STRAY {
+        let id = u16::from_be_bytes([d[0], d[1]]);
+        let in_progress = s.seen.get(&id).map(|x| !x.is_empty()).unwrap_or(false);
+        if !in_progress {
+            // the stray takes the id's slot first: nothing is demanded of the genuine frame with this id
+            s.tainted.insert(id);
+        }
+        if got.is_some() {
+            out.oracle_fail("malformed-produced-frame", "a fragment inconsistent with the frame in progress produced a frame");
+        }
         return;
     }
     // independent oracle: exactly-once at first completion, nothing for malformed input
@@ -176,6 +220,9 @@ fn op_reasm(out: &mut Out, s: &mut Sess, d: &[u8], wellformed: bool) {
         return;
     }
     let id = u16::from_be_bytes([d[0], d[1]]);
+    if s.tainted.contains(&id) {
+        return;
+    }
     let (total, seq) = (d[2], d[3]);
     let (otot, obuf) = s.orig.get(&id).cloned().unwrap();
     debug_assert_eq!(otot, total);
@@ -276,6 +323,7 @@ pub async fn run(out: &mut Out) {
             // after an entry for this id exists (3 fragments, seq 1 present)
             let mut s = new_sess(out, HUGE);
             s.eligible = false; // mixes ids deliberately: model comparison only
+            s.integrity = false; // frames built by hand
             op_reasm(out, &mut s, &[0x12, 0x34, 3, 1, 1, 2], false);
             op_reasm(out, &mut s, &d, false);
             op_reasm(out, &mut s, &[0x12, 0x34, 3, 0, 9], false);
@@ -300,7 +348,7 @@ pub async fn run(out: &mut Out) {
         let mut s = new_sess(out, timeout);
         op_setid(out, &mut s, *rng.pick(&[0u16, 1, 255, 256, 65534, 65535, 4660]));
         let nframes = rng.range(1, 3);
-        let mut all: Vec<(Vec<u8>, bool)> = vec![];
+        let mut all: Vec<(Vec<u8>, u8)> = vec![];
         for _ in 0..nframes {
             let mtu = *rng.pick(&mtus);
             let size = mtu - 4;
@@ -337,7 +385,7 @@ pub async fn run(out: &mut Out) {
                     idx.retain(|&x| x != victim);
                 }
                 for i in idx {
-                    all.push((fr[i].clone(), true));
+                    all.push((fr[i].clone(), GENUINE));
                 }
             }
         }
@@ -347,33 +395,42 @@ pub async fn run(out: &mut Out) {
         let nbad = rng.below(3);
         for _ in 0..nbad {
             let at = rng.below(all.len() + 1);
-            let bad = match rng.below(5) {
+            let mut kind = MALFORMED;
+            // (at most one stray per session: two strays could form a complete frame of their own)
+            let pick = if all.iter().any(|x| x.1 == STRAY) { rng.below(4) } else { rng.below(6) };
+            let bad = match pick {
                 0 => { let l = rng.below(4); rng.bytes(l) }
                 1 => vec![0xfe, 0xfe, 0, rng.next() as u8, 1],
                 2 => vec![0xfe, 0xfe, 200, rng.next() as u8, 1, 2],
                 3 => vec![0xfe, 0xfd, 5, 5 + (rng.next() % 200) as u8, 3],
                 _ => {
-                    // inconsistent total under an id in use
-                    if let Some((d, _)) = all.first() {
-                        let mut x = d.clone();
-                        if x.len() >= 4 {
-                            x[2] = x[2].wrapping_add(1);
-                        }
-                        s.eligible = false;
-                        x
-                    } else {
+                    // inconsistent total under an id in use: another total (2..=127), any valid seq, its own payload
+                    let genuine: Vec<&(Vec<u8>, u8)> = all.iter().filter(|x| x.1 == GENUINE && x.0.len() >= 4).collect();
+                    if genuine.is_empty() {
                         vec![1, 2, 3]
+                    } else {
+                        let d = &genuine[rng.below(genuine.len())].0;
+                        let mut t = *rng.pick(&[2u8, 3, 4, 5, 127, d[2].wrapping_add(1), d[2].wrapping_sub(1)]);
+                        if t == d[2] || t < 2 || t > 127 {
+                            t = if d[2] == 2 { 3 } else { 2 };
+                        }
+                        let seq = if rng.chance(1, 2) { d[3].min(t - 1) } else { rng.below(t as usize) as u8 };
+                        let mut x = vec![d[0], d[1], t, seq];
+                        let l = rng.range(1, 8);
+                        x.extend(rng.bytes(l));
+                        kind = STRAY;
+                        x
                     }
                 }
             };
-            all.insert(at, (bad, false));
+            all.insert(at, (bad, kind));
         }
         if timeout == 0 {
             s.eligible = false;
         }
         for (k, (d, wf)) in all.iter().enumerate() {
             s.now += 1;
-            op_reasm(out, &mut s, d, *wf);
+            op_reasm_k(out, &mut s, d, *wf);
             if timeout == 0 && rng.chance(1, 4) {
                 s.now += 1;
                 // let the real clock move past the deadlines taken so far
@@ -401,6 +458,35 @@ pub async fn run(out: &mut Out) {
             }
         }
         out.stat("id_wrap_run");
+    }
+
+    // ---- E. never-completed frames are discarded by the timer, and a later frame that reuses the id is not disturbed
+    // (real clock: timeout 200 ms; fragments of frame A at 0 and ~100 ms, timer at ~400 ms, then frame B under A's id)
+    for (na, nb, gap) in [(3usize, 2usize, 100u64), (4, 3, 150), (2, 5, 0), (3, 3, 100)] {
+        if !thorough && na == 4 {
+            continue;
+        }
+        let mut s = new_sess(out, 200);
+        let id = 40000 + na as u16;
+        op_setid(out, &mut s, id);
+        let a = rng.bytes(3 * (na - 1) + 2);
+        let fa = op_make(out, &mut s, 7, &a).unwrap();
+        op_reasm(out, &mut s, &fa[0], true);
+        if gap > 0 {
+            op_sleep(out, &mut s, gap);
+            op_reasm(out, &mut s, &fa[1], true);
+        }
+        op_sleep(out, &mut s, 320);
+        op_timer(out, &mut s);
+        // frame B reuses the id with another fragment count (same count when na == nb: its first fragment must not
+        // complete A's leftovers either)
+        op_setid(out, &mut s, id);
+        let b = rng.bytes(3 * (nb - 1) + 1);
+        let fb = op_make(out, &mut s, 7, &b).unwrap();
+        for f in fb.iter().rev() {
+            op_reasm(out, &mut s, f, true);
+        }
+        out.stat("expired_then_id_reuse");
     }
 
     // ---- F. directed: a complete fragment set that is duplicated as a whole is delivered twice
